@@ -85,6 +85,7 @@ class Recorder:
         self.disposed_time: float | None = None
         self.subscription: abc.DisposableBase | None = None
         self.on_next_hook: Callable[[Any, int], None] | None = None
+        self.on_term_hook: Callable[[str], None] | None = None  # called from inside on_error / on_completed (re-entrancy)
 
     def _rec(self, kind: str, value: Any) -> None:
         self.log.append((self.sched.tick(), self.sched._clock, kind, value))
@@ -102,9 +103,13 @@ class Recorder:
 
     def on_error(self, error: Exception) -> None:
         self._rec("E", error)
+        if self.on_term_hook is not None:
+            self.on_term_hook("E")
 
     def on_completed(self) -> None:
         self._rec("C", None)
+        if self.on_term_hook is not None:
+            self.on_term_hook("C")
 
     def dispose(self) -> None:
         """Dispose the recorder's own subscription and remember when dispose() returned."""
@@ -276,6 +281,10 @@ class LoggedHot(_LoggedBase):
             return Disposable()
 
         return action
+
+    def emit_now(self, kind: str, value: Any = None) -> None:
+        """Synchronous extra emission of a live (not yet terminated) hot source, e.g. from inside a subscriber's callback."""
+        self._mk(kind, value)(None)
 
     def _subscribe_core(self, observer, scheduler=None):
         s = self._open()
